@@ -24,4 +24,21 @@ print(f"stable_pass={len(stable)} passed_now={len(passed)} missing={len(missing)
 for m in missing[:40]:
     print("  NOT PASSING:", m)
 print(p.stdout.strip().splitlines()[-1] if p.stdout.strip() else p.stderr[-500:])
+if missing and "--recheck" in sys.argv:
+    # tests that only missed because the machine was overloaded (per-test timeout): run them again, alone, same timeout
+    ids = []
+    for m in missing:
+        mod, name = m.split("::", 1)
+        ids.append(mod.replace(".", "/") + ".py::" + name)
+    out2 = tempfile.mktemp(suffix=".junit.xml")
+    subprocess.run(["/venv/bin/python", "-m", "pytest", "-q", "-p", "no:cacheprovider", "--timeout=900", f"--junitxml={out2}", "-n", "2"] + ids,
+                   cwd=repo, env=env, capture_output=True, text=True)
+    again = set()
+    for tc in ET.parse(out2).getroot().iter("testcase"):
+        if not any(ch.tag in ("failure", "error", "skipped") for ch in tc):
+            again.add(f"{tc.get('classname')}::{tc.get('name')}")
+    os.unlink(out2)
+    still = sorted(set(missing) - again)
+    print(f"recheck of {len(missing)} missing test(s) alone: {len(missing) - len(still)} pass, still missing: {still}")
+    missing = still
 sys.exit(1 if missing else 0)
